@@ -169,7 +169,7 @@ def _task_fork4(digits, d4=None):
     return chk.to_dict()
 
 
-def fork4_tasks():
+def fork4_tasks(budget_quick=None, budget_thorough=None, seed_offset=9):
     """the fork tasks of C02 (same case split): a seeded sample within a CPU budget (quick: 900
     estimated CPU seconds, thorough: 9,000)"""
     import json
@@ -195,13 +195,15 @@ def fork4_tasks():
         costs = json.load(open(os.path.join(os.path.dirname(os.path.abspath(__file__)), "c02_costs.json")))
     except Exception:  # noqa: BLE001
         costs = {}
-    rng = random.Random(C.seed() + 9)
+    rng = random.Random(C.seed() + seed_offset)
     order = list(tasks)
     rng.shuffle(order)
     # thorough tier: a much larger sample, still without the few fork tasks that need 10+ GB
     # and minutes each (C02's complete run schedules those specially; their ratings are covered
     # by the abstract-score run above)
     budget = float(os.environ.get("VERIF_C09_BUDGET_S", "900" if C.tier() == "quick" else "9000"))
+    if budget_quick is not None:
+        budget = float(budget_quick if C.tier() == "quick" else budget_thorough)
     limit = 20 if C.tier() == "quick" else 60
     picked, spent = [], 0.0
     for t in order:
